@@ -1,5 +1,6 @@
 SPECIFICATION Spec
 CONSTANTS
+  Deep = FALSE
   Mode = "noncanon"
 INVARIANTS Emit
 CHECK_DEADLOCK FALSE
